@@ -326,6 +326,19 @@ def program(rng, **kw):
         n = rng.randint(1, 4)
         names = rng.sample(FIELD_NAMES, n)
         ms = [(names[k], rng.choice(IO_TYPES)[1]) for k in range(n)]
+        if g.aliases is not None:
+            # the same IO types spelled through an alias that NO module-scope variable uses
+            ms2 = []
+            for nm_, t_ in ms:
+                if rng.random() < 0.5 and t_.kind in ("scalar", "vec"):
+                    t2 = Ty(t_.kind, **{k_: v_ for k_, v_ in t_.__dict__.items() if k_ not in ("kind", "alias")})
+                    key = "io:" + t2.wgsl()
+                    if key not in g.aliases:
+                        g.aliases[key] = "IoAlias%d" % len(g.aliases)
+                    t2.alias = g.aliases[key]
+                    t_ = t2
+                ms2.append((nm_, t_))
+            ms = ms2
         s = Ty("struct", name="VIn%d" % i, members=ms, has_rts=False)
         vin.append(s)
         locs = [k + 4 * i for k in range(n)]
@@ -394,7 +407,7 @@ def program(rng, **kw):
     lines += io_lines + extra
     if g.aliases:
         for txt, nm in g.aliases.items():
-            lines.insert(alias_lines_at, "alias %s = %s;" % (nm, txt))
+            lines.insert(alias_lines_at, "alias %s = %s;" % (nm, txt[3:] if txt.startswith("io:") else txt))
     for sp, n, t, bi in globals_:
         q = {"uniform": "@group(0) @binding(%d) var<uniform> " % bi, "storage_ro": "@group(0) @binding(%d) var<storage, read> " % bi,
              "storage_rw": "@group(0) @binding(%d) var<storage, read_write> " % bi, "private": "var<private> ", "workgroup": "var<workgroup> "}[sp]
